@@ -401,12 +401,35 @@ func execE2E(raw json.RawMessage) (res execResult, err error) {
 		}
 		return "IAddOk"
 	}
+	var preObjs []*be.Document // the objects of the earlier generation, which the caller edits into the documents of this one
 	if len(c.Pre) > 0 {
 		for i := range c.Pre {
-			addOne(b, c.Pre[i].build())
+			o := c.Pre[i].build()
+			preObjs = append(preObjs, o)
+			addOne(b, o)
 		}
 		safeCall(func() { b.BuildIndex() })
 		b.Reset()
+	}
+	// buildDoc: document i of this generation.  On the re-executions with an earlier generation, the caller does not
+	// make new objects but EDITS the objects it added before, through their exported fields (id, conjunction list, the
+	// expression map of each conjunction), and adds them again.
+	buildDoc := func(i int) *be.Document {
+		fresh := c.Docs[i].build()
+		if !callerReusesBuffers || i >= len(preObjs) {
+			return fresh
+		}
+		o := preObjs[i]
+		o.ID = fresh.ID
+		for j, cj := range fresh.Cons {
+			if j < len(o.Cons) {
+				o.Cons[j].Expressions = cj.Expressions
+			} else {
+				o.Cons = append(o.Cons, cj)
+			}
+		}
+		o.Cons = o.Cons[:len(fresh.Cons)]
+		return o
 	}
 	outs := make([]string, len(c.Docs))
 	if c.Batch > 1 {
@@ -433,7 +456,7 @@ func execE2E(raw json.RawMessage) (res execResult, err error) {
 		}
 	} else {
 		for i := range c.Docs {
-			outs[i] = addOne(b, c.Docs[i].build())
+			outs[i] = addOne(b, buildDoc(i))
 			if c.Rebuild > 0 && i+1 == c.Rebuild {
 				safeCall(func() { b.BuildIndex() }) // an intermediate build; more documents (and fields) follow
 			}
